@@ -317,14 +317,21 @@ def r2_copy_selector(ctx, repo):
         raise AnalysisError("CopySelector.select not found")
     pop = func_params(fn)[1]
     loops = [s for s in fn.body if isinstance(s, ast.For) and access_path(s.iter) == pop]
-    ok = False
-    if len(loops) == 1:
-        ok = True
-        for p in Enumerator(loop_counts=(0, 1)).function_paths(body_fn(loops[0].body, fn.args)):
-            apps = [c for e in p.events if e.kind == "stmt" for c in calls_in(e.node) if method_call(c) and method_call(c)[1] == "append"]
-            if len(apps) != 1:
-                ok = False
-    ctx.check(ok, "R2", C, where(cls.module, fn), "one copy appended per member of the input population", key="copy-per-member")
+    if len(loops) != 1:
+        ctx.inconclusive("R2", C, where(cls.module, fn), "loop over the input population not found", key="copy-per-member")
+        return
+    bad = None
+    for p in Enumerator(loop_counts=(0, 1)).function_paths(body_fn(loops[0].body, fn.args)):
+        if p.outcome == "raise":
+            continue
+        apps = [c for e in p.events if e.kind == "stmt" for c in calls_in(e.node) if method_call(c) and method_call(c)[1] == "append"]
+        if len(apps) != 1:
+            bad = bad or "%d copies are appended for a member of the input population on the path [%s]: the swarm copied for the next generation has not exactly N members, so the " \
+                "generation records fewer (or more) than N designs and the evaluation budget changes" % (len(apps), p.describe(4))
+    if bad:
+        ctx.violated("R2", C, where(cls.module, loops[0]), bad, key="copy-per-member")
+    else:
+        ctx.holds("R2", C, where(cls.module, fn), "one copy appended per member of the input population", key="copy-per-member")
 
 
 # ------------------------------------------------------------------ R3/R4/R5 per run()
